@@ -117,6 +117,9 @@ def cases(kind, tier, seed):
         for chain, L, k, fo in term_spaces(tier):
             for t in itertools.product(letters(chain, L, fo), repeat=k):
                 yield dict(chain=chain, L=L, term=[list(x) for x in t], seed=seed)
+        for chain, L, uc in (('species:N,Sz', 4, 2), ('mixed:common', 6, 3)):  # indices beyond the unit cell
+            for t in itertools.product(letters(chain, L), repeat=2):
+                yield dict(chain=chain, L=L, term=[list(x) for x in t], seed=seed, unit_cell=uc)
     elif kind == 'mposum':
         for chain, L, k, fo in term_spaces(tier):
             if k == 2 or (chain, L, k) == ('F:N', 3, 4):
